@@ -115,11 +115,18 @@ func (o *object) regExpValue() regExpObject {
 	return value
 }
 
-func execRegExp(this *object, target string) (bool, []int) {
-	if this.class != classRegExpName || this.regExpValue().regularExpression == nil {
-		// RegExp.prototype has the class but no compiled expression.
-		panic(this.runtime.panicTypeError("Calling RegExp.exec on a non-RegExp object"))
+// compiledRegExp returns the compiled expression of a RegExp object. RegExp.prototype has the
+// class but no compiled expression: matching with it is a TypeError.
+func (o *object) compiledRegExp() *regexp.Regexp {
+	compiled := o.regExpValue().regularExpression
+	if o.class != classRegExpName || compiled == nil {
+		panic(o.runtime.panicTypeError("Calling RegExp.exec on a non-RegExp object"))
 	}
+	return compiled
+}
+
+func execRegExp(this *object, target string) (bool, []int) {
+	compiled := this.compiledRegExp()
 	lastIndex := this.get("lastIndex").number().int64
 	index := lastIndex
 	global := this.get("global").bool()
@@ -131,7 +138,7 @@ func execRegExp(this *object, target string) (bool, []int) {
 	// lastIndex counts utf16 code units, the regular expression works on bytes.
 	startIndex, ok := utf16ByteOffset(target, index)
 	if ok {
-		result = this.regExpValue().regularExpression.FindStringSubmatchIndex(target[startIndex:])
+		result = compiled.FindStringSubmatchIndex(target[startIndex:])
 	}
 
 	if result == nil {
